@@ -96,6 +96,26 @@ def run(ctx):
                     if cc.name in ("Option::unwrap", "Option::expect", "Result::unwrap", "Result::expect"):
                         ctx.ob("P2", b.defp, f"unwrap-as-fn-value:{cc.name}", loc(t["sp"]), False,
                                f"`{cc.name}` is applied to every item of a stream/future ({c.name}): end-of-stream (None) or an early close panics the task")
+    # P2c `str` slices must cut at char boundaries: slicing a &str at a byte offset that is not a boundary panics, and a length guard
+    # does not help. A bound is a boundary when it comes from a search on a string (find / rfind / len / char_indices ..) or is 0;
+    # a bare constant, or arithmetic that does not involve such a search, is not known to be one (`path[..7]` on "/wiki/\u{dc}nal").
+    from ..engine import premise_str_index_from_search
+    n_str = 0
+    for b in prog.prod_bodies():
+        if b.defp not in an.visited_fns and "handshake" not in b.defp:
+            continue
+        lines = set()
+        for (blk, c, t) in b.calls():
+            if c.method in ("index", "index_mut", "split_at") and "core::str" in c.target and t.get("sp") and len(t["args"]) >= 2:
+                lines.add((t["sp"][0], t["sp"][1]))
+        for (f_, ln) in sorted(lines):
+            n_str += 1
+            ok = premise_str_index_from_search(prog, b.defp, f"{f_}:{ln}")
+            ctx.ob("P2", b.defp, "str-slice-at-char-boundary", f"{f_}:{ln}", ok,
+                   "the bounds of this &str slice come from a search on a string (a char boundary)" if ok else
+                   "a &str is sliced at an offset that is not known to be a char boundary (a constant or computed byte offset): a multi-byte character across that "
+                   "offset makes the slice panic, whatever the length check says")
+    ctx.floor("P1", "&str slice sites in network-facing code", 5, n_str)
     # P3 unsafe operations on wire data
     for b in prog.prod_bodies():
         if b.defp not in an.visited_fns:
